@@ -210,6 +210,9 @@ func TestTamperSweep(t *testing.T) {
 				extra map[string]interface{}
 			}{
 				{"", nil}, {"key-1", nil}, {"k.2", map[string]interface{}{"typ": "JWT-x", "b64": true}},
+				// values whose text a JSON encoder may spell in more than one way: a large integer, characters that
+				// HTML-safe encoders escape, a fraction, a nested value
+				{"k<3>&", map[string]interface{}{"iat": float64(1600000000), "url": "https://a.example/?x=1&y=<2>", "ratio": 1.5, "nested": map[string]interface{}{"a": []interface{}{float64(1), "x"}}}},
 			}
 			if builder == "asm" {
 				headerSets = append(headerSets, struct {
@@ -254,6 +257,10 @@ func TestTamperSweep(t *testing.T) {
 					// header text with a repeated member name (decoy before or after the genuine member)
 					for _, d := range duplicateMemberHeaders(g.compact) {
 						rej(d.compact, "header altered ("+d.note+")", "header-duplicate-member")
+					}
+					// header text respelled without changing the value it denotes: the decoded header is changed all the same
+					for _, d := range respelledHeaders(g.compact) {
+						rej(d.compact, "header altered ("+d.note+")", "header-respelled")
 					}
 					// signature
 					for i := range g.sig {
@@ -323,6 +330,39 @@ func duplicateMemberHeaders(compact string) []rawAlt {
 				rawAlt{asm.B64([]byte("{"+m+","+body+"}")) + "." + parts[1] + "." + parts[2], fmt.Sprintf("member %s repeated with value %s in front of the genuine one", n, decoy)},
 				rawAlt{asm.B64([]byte("{"+body+","+m+"}")) + "." + parts[1] + "." + parts[2], fmt.Sprintf("member %s repeated with value %s behind the genuine one", n, decoy)})
 		}
+	}
+	return out
+}
+
+// respelledHeaders re-writes the decoded protected header of a genuine compact JWS into other texts for the same
+// JSON value: white space inserted at several places, members in reverse order, the first character of a string
+// value written as a \u escape, a trailing line feed. The signature covers the header as transmitted, so each of
+// them is a changed header.
+func respelledHeaders(compact string) []rawAlt {
+	parts := strings.Split(compact, ".")
+	raw, err := base64.RawURLEncoding.DecodeString(parts[0])
+	if err != nil || len(parts) != 3 || len(raw) < 2 || raw[0] != '{' {
+		return nil
+	}
+	txt := string(raw)
+	mk := func(h, note string) rawAlt { return rawAlt{asm.B64([]byte(h)) + "." + parts[1] + "." + parts[2], note} }
+	out := []rawAlt{mk("{ "+txt[1:], "space after the opening brace"), mk(txt[:len(txt)-1]+" }", "space before the closing brace"), mk(txt+"\n", "trailing line feed"),
+		mk(strings.Replace(txt, ":", ": ", 1), "space after the first colon")}
+	if i := strings.Index(txt, `:"`); i >= 0 && i+2 < len(txt) && txt[i+2] != '"' && txt[i+2] != '\\' && txt[i+2] < 0x80 {
+		out = append(out, mk(txt[:i+2]+fmt.Sprintf("\\u%04x", txt[i+2])+txt[i+3:], "first character of a string value written as a \\u escape"))
+	}
+	var names map[string]json.RawMessage
+	if json.Unmarshal(raw, &names) == nil && len(names) > 1 {
+		var sorted []string
+		for n := range names {
+			sorted = append(sorted, n)
+		}
+		sort.Sort(sort.Reverse(sort.StringSlice(sorted)))
+		var ms []string
+		for _, n := range sorted {
+			ms = append(ms, fmt.Sprintf("%q:%s", n, names[n]))
+		}
+		out = append(out, mk("{"+strings.Join(ms, ",")+"}", "members in reverse order"))
 	}
 	return out
 }
